@@ -3,7 +3,7 @@
 # Applies a seeded change to a scratch worktree of /repo (/tmp/wt_eval, same commit as /repo HEAD), runs the
 # checks against it (VERIF_REPO), and restores the worktree. Evidence of these runs goes to seeded/<id>/.
 ID=$1; TIER=$2; shift 2
-D=/verif/seeded/$ID; W=/tmp/wt_eval
+D=/verif/seeded/$ID; W=${EVALWT:-/tmp/wt_eval}
 [ -d $W ] || git -C /repo worktree add -q --detach $W HEAD
 git -C $W checkout -q --detach $(git -C /repo rev-parse HEAD); git -C $W checkout -q -- .; git -C $W clean -fdq
 git -C $W apply $D/patch.diff || exit 3
@@ -12,6 +12,6 @@ for P in "$@"; do
   echo "### ./check $P $TIER on seeded change $ID"
   mkdir -p $D/ev
   ( time VERIF_REPO=$W VERIF_EVIDENCE_DIR=$D/ev ./check $P $TIER ) 2>&1 | grep -v conda | grep -E "VIOLATION|KNOWN|INCONCLUSIVE|exit|obligation=|replay:|real" | cut -c1-600
-done > $D/eval_$TIER.log 2>&1
+done >> $D/eval_$TIER.log 2>&1
 git -C $W checkout -q -- .; git -C $W clean -fdq
 echo "$ID: $(grep -cE '^VIOLATION' $D/eval_$TIER.log) violation line(s); $(grep -E -- '-> exit' $D/eval_$TIER.log | sed 's/.*-> //' | paste -sd' ')"
